@@ -35,10 +35,19 @@ def main():
     uf = unit_files()
     pipeline.gen_consts()
     results = {}
-    for d in sorted(glob.glob(os.path.join(VERIF, 'seeded', '*-*'))):
+    # baseline: obligations that already fail on the unchanged tree (open findings, units in progress) never count as a catch
+    seeds = [d for d in sorted(glob.glob(os.path.join(VERIF, 'seeded', '*-*'))) if not only or os.path.basename(d) in only]
+    need = set()
+    for d in seeds:
+        touched = set(re.findall(r'^\+\+\+ b/(\S+)', open(os.path.join(d, 'patch.diff')).read(), re.M))
+        need |= {t for t, (files, props) in uf.items() if files & touched}
+    x2c.REPO = '/repo'; x2c._src_cache.clear()
+    with ThreadPoolExecutor(max_workers=12) as ex:
+        base = list(ex.map(lambda t: pipeline.run_unit(t, 'quick', repo='/repo', build_tag='seedbase'), sorted(need)))
+    baseline = {r_['unit']: ({o['description'] for o in r_['failed']}, r_['status']) for r_ in base}
+    print('baseline: %d units, failing on the unchanged tree: %s' % (len(base), [u for u, (f, st) in baseline.items() if st != 'proved']), flush=True)
+    for d in seeds:
         sid = os.path.basename(d)
-        if only and sid not in only:
-            continue
         patch = os.path.join(d, 'patch.diff')
         sh('git -C %s checkout -q -- . ; git -C %s reset -q --hard %s' % (W, W, head))
         r = sh('git -C %s apply %s' % (W, patch))
@@ -55,7 +64,10 @@ def main():
         undec = []
         for r_ in rs:
             if r_['status'] == 'failed':
-                caught.append({'unit': r_['unit'], 'props': r_.get('props'), 'obligations': [o['description'][:140] + ' @' + str(o.get('file')) + ':' + str(o.get('line')) for o in r_['failed'][:3]]})
+                newf = [o for o in r_['failed'] if o['description'] not in baseline.get(r_['unit'], (set(), ''))[0]]
+                if not newf:
+                    continue
+                caught.append({'unit': r_['unit'], 'props': r_.get('props'), 'obligations': [o['description'][:140] + ' @' + str(o.get('file')) + ':' + str(o.get('line')) for o in newf[:3]]})
             elif r_['status'] == 'undecided':
                 undec.append({'unit': r_['unit'], 'reason': (r_.get('reason') or '')[:160]})
         meta = json.load(open(os.path.join(d, 'meta.json'))) if os.path.exists(os.path.join(d, 'meta.json')) else {}
